@@ -418,6 +418,9 @@ def main():
         return 2
     pid = sys.argv[1]
     if sys.argv[2] == "--replay":
+        for c in PROPS.get(pid, {}).get("corr", []):   # cases of runner kinds are replayed by their hook test
+            if "runner" in c:
+                RUNNERS[c["kind"]] = c["runner"]
         return do_replay(sys.argv[3])
     tier = sys.argv[2] if sys.argv[2] in ("quick", "thorough") else os.environ.get("VERIF_TIER", "quick")
     seed = int(os.environ.get("VERIF_SEED", "1"))
